@@ -729,7 +729,7 @@ func c15Flags(p *load.Program, r *core.Report) {
 // c15Permissions: H5
 func c15Permissions(p *load.Program, r *core.Report) {
 	rule := "C15.H5 permissions-dominate-effects"
-	r.Floor(rule, 8)
+	r.Floor(rule, 14)
 	type spec struct {
 		fn, lookup, effect, flag string
 	}
@@ -844,45 +844,113 @@ func c15Permissions(p *load.Program, r *core.Report) {
 			r.Unk(rule, key, "", "", inst, "function not found")
 			continue
 		}
-		found := false
+		effectName := map[string][]string{"RemoteSpawn": {"sendAny"}, "applicationStart": {"sendAny"}, "routeMessage": {"RouteSpawn", "RouteApplicationStart"}}[fs.fn]
+		want := effectName
+		if fs.fn == "routeMessage" {
+			if fs.flagField == "EnableRemoteSpawn" {
+				want = []string{"RouteSpawn"}
+			} else {
+				want = []string{"RouteApplicationStart"}
+			}
+		}
+		// path-sensitive: with the flag set customised (Enable) and the capability off, the effect is
+		// unreachable; with the capability on it is reachable (the gate is not simply closed)
+		leaf := func(v ssa.Value) string {
+			switch v.(type) {
+			case *ssa.UnOp, *ssa.Field:
+			default:
+				return ""
+			}
+			_, path, okp := fieldPath(v)
+			if !okp || len(path) < 2 || path[len(path)-2] != fs.side {
+				return ""
+			}
+			switch path[len(path)-1] {
+			case "Enable":
+				return "enable"
+			case fs.flagField:
+				return "capability"
+			}
+			return ""
+		}
+		isEffect := func(i ssa.Instruction) bool { return callsNamed(i, want...) }
+		entry := []Point{{f.Blocks[0], 0}}
+		off := reachesUnder(entry, leaf, map[string]bool{"enable": true, "capability": false}, nil, isEffect)
+		on := reachesUnder(entry, leaf, map[string]bool{"enable": true, "capability": true}, nil, isEffect)
+		switch {
+		case off != nil:
+			r.Bad(rule, key, fname(f), p.Pos(off.Pos()), inst, "with "+fs.side+".Enable set and "+fs.flagField+" false the effect at "+p.Pos(off.Pos())+" is still reachable: the flag does not switch the capability off")
+		case on == nil:
+			r.Bad(rule, key, fname(f), p.Pos(f.Pos()), inst, "the effect is unreachable even with the capability switched on")
+		default:
+			r.OK(rule, key, fname(f), p.Pos(on.Pos()), inst, "effect unreachable under {Enable, !"+fs.flagField+"}, reachable under {Enable, "+fs.flagField+"}")
+		}
+	}
+	c15PermissionTables(p, r, rule)
+}
+
+// c15PermissionTables: H5 continued — who asks and what the tables record.
+func c15PermissionTables(p *load.Program, r *core.Report, rule string) {
+	// the requesting node's name handed to the permission check is the connection's peer name
+	if f := p.Func("net/proto", "connection", "routeMessage"); f != nil {
+		for _, name := range []string{"RouteSpawn", "RouteApplicationStart"} {
+			key := "C15.H5|routeMessage|" + name + "|source"
+			inst := "the permission check for a remote " + name + " is made in the name of the connected peer"
+			n, good := 0, 0
+			eachInstr(f, func(in ssa.Instruction) {
+				cc := callCommon(in)
+				if cc == nil || !callsNamed(in, name) {
+					return
+				}
+				n++
+				last := cc.Args[len(cc.Args)-1]
+				if _, path, ok := fieldPath(last); ok && len(path) > 0 && path[len(path)-1] == "peer" {
+					good++
+				}
+			})
+			switch {
+			case n == 0:
+				r.Unk(rule, key, fname(f), p.Pos(f.Pos()), inst, "no call site")
+			case good != n:
+				r.Bad(rule, key, fname(f), p.Pos(f.Pos()), inst, "the source argument is not the connection's peer name: the allow list is consulted for somebody else (e.g. the local node, which is always allowed)")
+			default:
+				r.OK(rule, key, fname(f), p.Pos(f.Pos()), inst, "source = c.peer")
+			}
+		}
+	}
+	// Enable* records true, Disable* records false for the named nodes
+	for _, t := range []struct {
+		fn   string
+		want bool
+	}{{"EnableSpawn", true}, {"DisableSpawn", false}, {"EnableApplicationStart", true}, {"DisableApplicationStart", false}} {
+		f := p.Func("node", "network", t.fn)
+		key := "C15.H5|" + t.fn + "|value"
+		inst := fmt.Sprintf("%s records %v for each named node", t.fn, t.want)
+		if f == nil {
+			r.Unk(rule, key, "", "", inst, "function not found")
+			continue
+		}
+		n, good := 0, 0
 		eachInstr(f, func(in ssa.Instruction) {
-			v, ok := in.(ssa.Value)
+			mu, ok := in.(*ssa.MapUpdate)
 			if !ok {
 				return
 			}
-			_, path, okp := fieldPath(v)
-			if !okp || len(path) < 2 || path[len(path)-1] != fs.flagField || path[len(path)-2] != fs.side {
+			if _, path, okp := fieldPath(mu.Map); !okp || len(path) == 0 || path[len(path)-1] != "nodes" {
 				return
 			}
-			// the flag's false edge leaves without the effect (send / Route call)
-			_, fl, c := boolEdges(v)
-			if !c || len(fl) == 0 {
-				return
-			}
-			var st []Point
-			for _, e := range fl {
-				st = append(st, Point{e.To(), 0})
-			}
-			effectName := map[string][]string{"RemoteSpawn": {"sendAny"}, "applicationStart": {"sendAny"}, "routeMessage": {"RouteSpawn", "RouteApplicationStart"}}[fs.fn]
-			want := effectName
-			if fs.fn == "routeMessage" {
-				if fs.flagField == "EnableRemoteSpawn" {
-					want = []string{"RouteSpawn"}
-				} else {
-					want = []string{"RouteApplicationStart"}
-				}
-			}
-			// on the false edge, before merging back, the effect must not be reachable within the same arm:
-			// approximate: the block of the false edge returns without calling the effect
-			hit := walkAvoid(st, func(i ssa.Instruction) bool { return isReturn(i) }, func(i ssa.Instruction) bool { return callsNamed(i, want...) })
-			if len(hit) == 0 {
-				found = true
+			n++
+			if b, okb := constBool(mu.Value); okb && b == t.want {
+				good++
 			}
 		})
-		if found {
-			r.OK(rule, key, fname(f), p.Pos(f.Pos()), inst, "flag tested; the disabled edge returns without the effect")
-		} else {
-			r.Bad(rule, key, fname(f), p.Pos(f.Pos()), inst, "no test of the flag whose disabled edge avoids the effect")
+		switch {
+		case n == 0:
+			r.Bad(rule, key, fname(f), p.Pos(f.Pos()), inst, "the allow list is never updated")
+		case good != n:
+			r.Bad(rule, key, fname(f), p.Pos(f.Pos()), inst, fmt.Sprintf("the allow list is updated with another value than %v: a node that was disabled stays (or becomes) allowed", t.want))
+		default:
+			r.OK(rule, key, fname(f), p.Pos(f.Pos()), inst, fmt.Sprintf("%d update(s) with %v", n, t.want))
 		}
 	}
 }
